@@ -1481,8 +1481,10 @@ func (d *Data) ServeHTTP(uuid dvid.UUID, ctx *datastore.VersionedCtx, w http.Res
 			server.BadRequest(w, r, fmt.Sprintf("Error reading batchsize query string: %v", err))
 			return
 		}
-		if batchsize < 1 {
-			server.BadRequest(w, r, fmt.Sprintf("batchsize must be at least 1, not %d", batchsize))
+		// the partitioner computes with batchsize^3 blocks in int32 arithmetic
+		const maxBatchSize = 1024
+		if batchsize < 1 || batchsize > maxBatchSize {
+			server.BadRequest(w, r, fmt.Sprintf("batchsize must be between 1 and %d, not %d", maxBatchSize, batchsize))
 			return
 		}
 
